@@ -140,6 +140,22 @@ class Vocab:
         return out
 
 
+_MIRROR_OP = {"<": ">", ">": "<", "<=": ">=", ">=": "<=", "==": "==", "!=": "!="}
+
+
+def _mirror(n):
+    if n.get("k") == "bin" and n.get("op") in _MIRROR_OP and isinstance(n.get("lhs"), dict) and isinstance(n.get("rhs"), dict):
+        m = dict(n)
+        m["lhs"], m["rhs"], m["op"] = n["rhs"], n["lhs"], _MIRROR_OP[n["op"]]
+        return m
+    if n.get("k") == "opcall" and n.get("op") in _MIRROR_OP and len(n.get("args", [])) == 2:
+        m = dict(n)
+        m["args"] = [n["args"][1], n["args"][0]]
+        m["op"] = _MIRROR_OP[n["op"]]
+        return m
+    return None
+
+
 def translate(node, leaf):
     """condition tree -> formula; leaf(node) returns a formula or None (unknown: no information)"""
     n = strip_casts(node)
@@ -148,6 +164,13 @@ def translate(node, leaf):
     r = leaf(n)
     if r is not None:
         return r
+    # `a < b` and `b > a` are the same test: a leaf that does not recognise a comparison is offered its mirror image, so that
+    # no rule depends on which way round the source spells it (tools/flip_sweep.py)
+    m = _mirror(n)
+    if m is not None:
+        r = leaf(m)
+        if r is not None:
+            return r
     k = n.get("k")
     if k == "un" and n["op"] == "!":
         s = translate(n["v"], leaf)
